@@ -406,9 +406,11 @@ def run_check(prop, tier, cfg):
         symex_s = sum(((c.get("cbmc_stats") or {}).get("runtime_symex_s") or 0) for c in cb.values())
         vccs = sum(((c.get("cbmc_stats") or {}).get("vccs_generated") or 0) for c in cb.values())
         samples = []
-        for r in results[:4]:
+        own_tag = f"VP[{prop}]"
+        n_own = sum(1 for r in results for c in r.get("checks", []) if c.get("description", "").startswith(own_tag))
+        for r in results:
             for c in r.get("checks", []):
-                if c.get("description", "").startswith("VP[") and len(samples) < 8:
+                if c.get("description", "").startswith(own_tag if n_own else "VP[") and len(samples) < 8 and not any(x["obligation"] == c["description"] for x in samples):
                     stt = {"Satisfied": "VIOLATED", "Unsatisfiable": "holds", "Unreachable": "holds (not reachable)"}.get(c["status"], c["status"])
                     samples.append(dict(harness=r["harness_id"], obligation=c["description"], status=stt))
         funcs = sorted({c.get("function", "") for r in results for c in r.get("checks", [])
@@ -426,7 +428,7 @@ def run_check(prop, tier, cfg):
                 obligations=tot["checks"], discharged=tot["success"] + tot["unreachable"] + tot["covers_sat"],
                 exhaustive=False,
                 engine="Kani 0.68.0 / CBMC 6.11.0 / CaDiCaL (bit-precise SAT), unwinding assertions on",
-                harnesses=per_h, harness_count=len(results),
+                harnesses=per_h, harness_count=len(results), own_label_obligations=n_own,
                 functions_encoded=funcs[:200],
                 bounds=cfg.get("bounds", ""),
                 queries=dict(cbmc_properties=tot["checks"], vccs_generated=vccs, failed=tot["failed"],
